@@ -10,3 +10,6 @@ func (p *SingleFlightProvider) VerifGroup() *singleflight.Group { return p.singl
 
 // VerifInner exposes the wrapped provider (verification harness only, build tag verif).
 func (p *SingleFlightProvider) VerifInner() Provider { return p.provider }
+
+// VerifInner exposes the provider wrapped by the group cache (verification harness only, build tag verif).
+func (p *GroupCache) VerifInner() Provider { return p.provider }
